@@ -1,4 +1,4 @@
-\* quick exhaustive bound of bin/check C04 (lib/checks/c04.py generates the cfg text it runs)
+\* first quick exhaustive bound of bin/check C04 (lib/checks/c04.py generates the cfg text of every bound it runs)
 SPECIFICATION GSpec
 CONSTANTS
   Locals = {"l1"}
@@ -21,6 +21,7 @@ CONSTANTS
   DefectOdds = 0
   Salts = {0}
   DefaultLast = TRUE
+  BareMaps = TRUE
   PrintExpected = FALSE
 CHECK_DEADLOCK FALSE
 INVARIANT TheoremsHold
